@@ -238,6 +238,8 @@ func (e *Engine) eval(env *Env, n *cexpr.Node) Value {
 			return IntV{smt.Select(s.Arr, i)}
 		case SliceV:
 			return env.st.loadElem(s.Elem, nil, s.Arr, smt.Add(s.Off, i))
+		case SnapV:
+			return fromLeaves(s.Elem, []*smt.Term{smt.Select(s.Arr, smt.Add(s.Off, i))})
 		}
 		panic(fmt.Sprintf("cannot index %T in %s", x, n))
 	case "slice":
@@ -301,6 +303,8 @@ func (e *Engine) evalIdent(env *Env, name string) Value {
 		}
 	}
 	switch name {
+	case "snap":
+		return FuncRefV{Name: name}
 	case "isint64", "isfloat64", "isstring", "isbool", "anyint", "anystr", "anybool", "isjsonnumber":
 		return FuncRefV{Name: name}
 	case "len", "cap", "fresh", "as", "typeis", "isnil", "arrid", "abs", "min", "max", "allocated", "sameslice", "unchanged", "str", "int64", "uint64", "int", "byte", "implies", "ident":
@@ -335,6 +339,12 @@ func (e *Engine) evalIdent(env *Env, name string) Value {
 		}
 	}
 	panic(fmt.Sprintf("unknown identifier %q in contract (function %v)", name, env.fn))
+}
+
+// SnapV is an immutable snapshot of a slice's contents.
+type SnapV struct {
+	Arr, Off, Len *smt.Term
+	Elem          types.Type
 }
 
 // NilV is the untyped nil in contract expressions.
@@ -665,6 +675,8 @@ func (e *Engine) evalCall(env *Env, n *cexpr.Node) Value {
 			return IntV{x.Len}
 		case SeqV:
 			return IntV{x.Len}
+		case SnapV:
+			return IntV{x.Len}
 		}
 	case "cap":
 		return IntV{e.eval(env, args[0]).(SliceV).Cap}
@@ -736,6 +748,16 @@ func (e *Engine) evalCall(env *Env, n *cexpr.Node) Value {
 			t = types.NewPointer(t)
 		}
 		return BoolV{anyIs(x.T, t)}
+	case "snap":
+		// snap(s): immutable snapshot of the current contents of a slice with single-leaf elements
+		x := e.eval(env, args[0]).(SliceV)
+		ls := leavesOf(x.Elem)
+		if len(ls) != 1 {
+			panic("snap: element type must have a single leaf")
+		}
+		name := elemHeapName(x.Elem, ls[0].Suffix)
+		h := env.st.heap(name, smt.ArrayOf(smt.ArrayOf(ls[0].Sort)))
+		return SnapV{Arr: smt.Select(h, x.Arr), Off: x.Off, Len: x.Len, Elem: x.Elem}
 	case "isint64":
 		return BoolV{anyIs(e.eval(env, args[0]).(AnyV).T, types.Typ[types.Int64])}
 	case "isfloat64":
